@@ -34,11 +34,12 @@ bool tagUnitsMatchRefsUnits::operator()(const std::vector<DataArray> &references
                 du = dims_units[i];
                 if (du != "none") {
                     if (!tu.empty() && tu != "none") {
-                        match = util::isScalable(tu, du); 
+                        // a mismatch in any dimension must not be overwritten by a later match
+                        match = match && util::isScalable(tu, du);
                     }
                 }
             } else {
-                match = !tu.empty() || tu != "none";
+                match = match && (!tu.empty() || tu != "none");
             }
         }
         if (!match)
